@@ -1099,6 +1099,12 @@ jAGGiQIwHFj+dJZYUJR786osByBelJYsVZd2GbHQu209b5RCmGQ21gpSAk9QZW4B
         if vs.syntax() == SyntaxType::OauthClaimMap {
             return out;
         }
+        // generic query behaviour: the set contains each of its own partial values
+        for (i, pv) in vs.to_partialvalue_iter().enumerate() {
+            if i < 16 {
+                out.insert(format!("contains-own-partialvalue[{i}]"), format!("{}", vs.contains(&pv)));
+            }
+        }
         for v in vs.to_value_iter() {
             match &v {
                 Value::Cred(tag, c) => {
@@ -1149,6 +1155,24 @@ jAGGiQIwHFj+dJZYUJR786osByBelJYsVZd2GbHQu209b5RCmGQ21gpSAk9QZW4B
                 }
                 Value::Oauth2Session(u, s) => {
                     out.insert(format!("o2session[{u}]:state"), format!("{:?}", s.state));
+                    // queries keyed by the resource server (used when a client is deleted) must behave
+                    // the same on a reloaded set: the derived rs filter has to be rebuilt on load
+                    // (a session id never changes its resource server in real use; generated sets that
+                    // re-use an id with another rs are outside the callers' contract and are not probed)
+                    let mut ids: Vec<u64> = g.vals.iter().filter_map(|x| match x { GV::O2Session { id, .. } => Some(*id), _ => None }).collect();
+                    let n_ids = ids.len();
+                    ids.sort();
+                    ids.dedup();
+                    if ids.len() != n_ids {
+                        continue;
+                    }
+                    let pv = PartialValue::Refer(s.rs_uuid);
+                    out.insert(format!("o2session:contains-by-rs[{}]", s.rs_uuid), format!("{}", vs.contains(&pv)));
+                    let mut c = vs.clone();
+                    let removed = c.remove(&pv, &Cid::new_lamport(Uuid::nil(), std::time::Duration::from_secs(9), &std::time::Duration::from_secs(1)));
+                    let mut states: Vec<String> = c.to_value_iter().map(|v| match v { Value::Oauth2Session(u2, s2) => format!("{u2}:{:?}", s2.state), _ => String::new() }).collect();
+                    states.sort();
+                    out.insert(format!("o2session:remove-by-rs[{}]", s.rs_uuid), format!("{removed} -> {states:?}"));
                 }
                 Value::ApiToken(u, s) => {
                     out.insert(format!("apitoken[{u}]:expiry/scope"), format!("{:?}/{:?}", s.expiry, s.scope));
